@@ -520,7 +520,16 @@ class Glyph(BaseObject):
                 pointPen.beginPath()
                 warn("The beginPath method needs an identifier kwarg. The contour's identifier value has been discarded.", DeprecationWarning)
             for args, kwargs in contour["points"]:
-                pointPen.addPoint(*args, **kwargs)
+                try:
+                    pointPen.addPoint(*args, **kwargs)
+                except TypeError:
+                    if "identifier" not in kwargs:
+                        raise
+                    # same fallback as Contour.drawPoints
+                    kwargs = dict(kwargs)
+                    del kwargs["identifier"]
+                    pointPen.addPoint(*args, **kwargs)
+                    warn("The addPoint method needs an identifier kwarg. The point's identifier value has been discarded.", DeprecationWarning)
             pointPen.endPath()
 
     def getPen(self):
